@@ -978,6 +978,17 @@ pub fn run_c09(tier: Tier) -> Report {
                 P::If(vec![(p1.clone(), branch(3)), (p2.clone(), branch(4)), (m::lit_b(true), branch(6)), (p1.clone(), branch(7))], None),
                 m::marker(2),
             ]);
+            // an explicit else block that STARTS with an if and continues (not an else-if arm)
+            progs.push(vec![
+                m::set(m::var_t("y"), m::lit_i(0)),
+                m::set(m::var_t("x"), P::If(vec![(p1.clone(), branch(3))], Some(vec![P::If(vec![(p2.clone(), branch(6))], None), m::marker(7), m::lit_i(70)]))),
+                m::marker(2),
+            ]);
+            progs.push(vec![
+                m::set(m::var_t("y"), m::lit_i(0)),
+                P::If(vec![(p1.clone(), branch(3))], Some(vec![P::If(vec![(p2.clone(), branch(6))], Some(branch(4))), m::set(evt("tail"), m::lit_i(1))])),
+                m::marker(2),
+            ]);
             // nested if inside a branch
             progs.push(vec![
                 m::set(m::var_t("y"), m::lit_i(0)),
@@ -1035,6 +1046,8 @@ pub fn run_c13(tier: Tier) -> Report {
         ("aborts-on-2", vec![m::if_(m::bin("==", m::var("v"), m::lit_i(2)), vec![P::Abort(None)]), m::lit_b(true)]),
         ("assigns-param", vec![m::set(m::var_t("v"), m::lit_s("inner")), m::lit_b(true)]),
         ("nested-closure", vec![P::Closure("for_each", Box::new(arr(1)), vec!["k".into(), "v".into()], vec![m::set(evt("inner"), m::var("v"))]), m::lit_b(true)]),
+        // map_keys only: the closure leaves through `return <key>` for one of the keys
+        ("returns-key", vec![m::if_(m::bin("==", m::var("v"), m::lit_s("a")), vec![m::ret(m::lit_s("ret"))]), m::lit_s("key")]),
     ];
     let mut progs: Vec<(Vec<P>, bool)> = Vec::new();
     for coll in &colls {
@@ -1056,6 +1069,9 @@ pub fn run_c13(tier: Tier) -> Report {
                         };
                         let body: Vec<P> = match fname {
                             "map_keys" => {
+                                if *bname == "returns-key" {
+                                    body.clone()
+                                } else {
                                 if *bname != "succeeds" && *bname != "fails-always" && *bname != "assigns-param" {
                                     continue;
                                 }
@@ -1064,8 +1080,14 @@ pub fn run_c13(tier: Tier) -> Report {
                                 bdy.pop();
                                 bdy.push(m::lit_s("key"));
                                 bdy
+                                }
                             }
-                            _ => body.clone(),
+                            _ => {
+                                if *bname == "returns-key" {
+                                    continue;
+                                }
+                                body.clone()
+                            }
                         };
                         let call = match &coll_expr {
                             Some(c) => P::Closure(fname_static(fname), Box::new(c.clone()), params.clone(), body),
